@@ -74,6 +74,12 @@ var lintPairs = []lintPair{
 	{"e_ext_san_uri_host_not_fqdn_or_ip", "e_ext_ian_uri_host_not_fqdn_or_ip", "same", "sanian"},
 	{"e_ext_san_uri_not_ia5", "e_ext_ian_uri_not_ia5", "same", "sanian"},
 	{"e_ext_san_uri_relative", "e_ext_ian_uri_relative", "same", "sanian"},
+	// the community general-name rules that exist once for subjectAltName and once for issuerAltName
+	{"e_san_bare_wildcard", "e_ian_bare_wildcard", "same", "sanian"},
+	{"e_san_dns_name_includes_null_char", "e_ian_dns_name_includes_null_char", "same", "sanian"},
+	{"e_san_dns_name_starts_with_period", "e_ian_dns_name_starts_with_period", "same", "sanian"},
+	{"e_san_wildcard_not_first", "e_ian_wildcard_not_first", "same", "sanian"},
+	{"n_san_iana_pub_suffix_empty", "w_ian_iana_pub_suffix_empty", "finding", "sanian"},
 	{"w_subject_dn_leading_whitespace", "w_issuer_dn_leading_whitespace", "same", "dn"},
 	{"w_subject_dn_trailing_whitespace", "w_issuer_dn_trailing_whitespace", "same", "dn"},
 	{"n_multiple_subject_rdn", "w_multiple_issuer_rdn", "finding", "dn"},
@@ -131,7 +137,18 @@ func init() {
 					for k, v := range detail {
 						d[k] = v
 					}
-					out.Violate("C20|"+p.a+"~"+p.b, fmt.Sprintf("%s reports %s but %s reports %s on the same content (%s)", p.a, ra.Status, p.b, rb.Status, what), d, ra.Status.String(), rb.Status.String())
+					// the key names the direction of the disagreement, so that a recorded finding covers that direction only
+					dir := "statuses-differ"
+					if isFinding(ra.Status) && !isFinding(rb.Status) {
+						dir = "only-first-finds"
+					} else if !isFinding(ra.Status) && isFinding(rb.Status) {
+						dir = "only-second-finds"
+					}
+					key := "C20|" + p.a + "~" + p.b
+					if p.mode == "finding" {
+						key += ":" + dir
+					}
+					out.Violate(key, fmt.Sprintf("%s reports %s but %s reports %s on the same content (%s)", p.a, ra.Status, p.b, rb.Status, what), d, ra.Status.String(), rb.Status.String())
 				}
 			}
 		}
